@@ -422,8 +422,8 @@ pub fn judge_run_case(ctx: &mut Ctx, suite: &str, cs: u64, case: &Case, src: &st
         if reads_empty {
             if let Some((sl, sepochs, spanic)) = imp::run_static_case(case, src) {
                 let req = imp::enc_run_request(src, &case.sigs, false, &[], &sepochs, case.cap, true);
-                let ms_all = split_post(ctx.model.ask(&req)).0;
-                let ms: Vec<String> = significant(&ms_all).into_iter().filter(|l| l.starts_with("static") || l.starts_with("sitem")).collect();
+                let ms_all = ctx.model.ask(&req);
+                let ms: Vec<String> = significant(&ms_all).into_iter().filter(|l| l.starts_with("static") || l.starts_with("sitem") || l == "posterr").collect();
                 ctx.report.bump("static-twin");
                 if significant(&sl) != ms {
                     add_finding(ctx, "model", suite, cs, format!("static iteration: {}", first_diff(&significant(&sl), &ms)), text.clone(), &sl, &ms_all);
@@ -1869,8 +1869,9 @@ pub fn judge_c15_case(ctx: &mut Ctx, suite: &str, cs: u64, case: &Case, src: &st
     // (d) static iteration
     let Some((sl, sepochs, spanic)) = imp::run_static_case(case, src) else { return };
     let req = imp::enc_run_request(src, &case.sigs, false, &[], &sepochs, case.cap, true);
-    let m = split_post(ctx.model.ask(&req)).0;
-    let ms: Vec<String> = significant(&m).into_iter().filter(|l| l.starts_with("static") || l.starts_with("sitem")).collect();
+    // the static run too is continued behind error items (behind a `posterr` marker) and compared with the model in full
+    let m = ctx.model.ask(&req);
+    let ms: Vec<String> = significant(&m).into_iter().filter(|l| l.starts_with("static") || l.starts_with("sitem") || l == "posterr").collect();
     let is_static = sl.first().map(|l| l == "static ok").unwrap_or(false);
     ctx.report.bump(if is_static { "static" } else { "not-static" });
     if significant(&sl) != ms {
@@ -1886,13 +1887,16 @@ pub fn judge_c15_case(ctx: &mut Ctx, suite: &str, cs: u64, case: &Case, src: &st
     }
     if is_static && case.fault.is_none() {
         // the static stream equals the dynamic one (inputs, expected values, lines), whatever the driver returns
-        let s: Vec<String> = significant(&sl).iter().filter(|l| l.starts_with("sitem")).map(|l| common_part(l)).collect();
+        // static versus dynamic: up to the first error item (the dynamic trace `r1.lines` ends there)
+        let s: Vec<String> = significant(&sl).iter().take_while(|l| *l != "posterr").filter(|l| l.starts_with("sitem")).map(|l| common_part(l)).collect();
         let d: Vec<String> = significant(&r1.lines).iter().filter(|l| l.starts_with("item")).map(|l| common_part(&l.replace(" NOT-STICKY", ""))).collect();
         if s != d {
             // known finding KF1? the static run stops on an identifier that is unassigned although the
             // parser took it for a variable, while the dynamic run reads the device output of that name
-            let model_says_unassigned = m.iter().any(|l| l.starts_with("# expr") && l.contains("unassigned"));
-            let name = m
+            // (the attribution looks at the FIRST error item only: the part of the model's trace in front of `posterr`)
+            let m_pre: Vec<String> = m.iter().take_while(|l| *l != "posterr").cloned().collect();
+            let model_says_unassigned = m_pre.iter().any(|l| l.starts_with("# expr") && l.contains("unassigned"));
+            let name = m_pre
                 .iter()
                 .find(|l| l.starts_with("# expr") && l.contains("unassigned"))
                 .and_then(|l| l.split('"').nth(1).map(|s| s.to_string()));
